@@ -277,6 +277,65 @@ def _rejects_multi(fi, test):
     return False
 
 
+def _moved_store(repo, res, anchor, kind):
+    """The store of `kind` is no longer in the anchor method: find the methods of the same class hierarchy
+    that perform it.  Each must be guarded itself, or -- if it is not -- be reached only through call sites
+    of the package that are guarded; an unguarded store in a public method, or behind an unguarded call,
+    is a finding.  -> True when some such method was found and judged."""
+    if anchor.cls is None:
+        return False
+    pred = sink_predicate(kind)
+    holders = []
+    for ci in [anchor.cls] + repo.subclasses(anchor.cls) + repo.mro(anchor.cls)[1:]:
+        for m in ci.methods.values():
+            if m is anchor or m in holders:
+                continue
+            if any(pred(n, None) for n in walk_no_nested(m.node)):
+                holders.append(m)
+    if not holders:
+        return False
+    for h in holders:
+        set_model_locals(h.node)
+        fl = _IdFlow(pred)
+        fl.defs = single_defs(h.node)
+        fl.run(body_stmts(h))
+        own_ok = bool(fl.sinks) and all(g for _n, g in fl.sinks)
+        res.functions.add(h.fq)
+        if own_ok:
+            res.inst({'sink_function': h.fq, 'store_moved_from': anchor.fq, 'identity_guard_dominates': True}, True)
+            continue
+        # callers
+        bad_callers = []
+        n_callers = 0
+        for f2 in repo.all_functions():
+            if f2.module in ('deco', 'cpt_solver_bkp') or f2 is h:
+                continue
+            calls = [c for c in walk_no_nested(f2.node) if isinstance(c, ast.Call) and isinstance(c.func, ast.Attribute)
+                     and c.func.attr == h.name]
+            if not calls:
+                continue
+            n_callers += 1
+            ids = {id(c) for c in calls}
+            set_model_locals(f2.node)
+            fl2 = _IdFlow(lambda n, stmt: id(n) in ids)
+            fl2.defs = single_defs(f2.node)
+            fl2.run(body_stmts(f2))
+            if not fl2.sinks or not all(g for _n, g in fl2.sinks):
+                bad_callers.append(f2.fq)
+        public = not h.name.startswith('_')
+        ok = not bad_callers and n_callers > 0 and not public
+        res.inst({'sink_function': h.fq, 'store_moved_from': anchor.fq, 'identity_guard_dominates': False,
+                  'unguarded_callers': bad_callers, 'public': public}, ok)
+        if not ok:
+            why = ('is reached through %s without a model-identity test' % ', '.join(bad_callers)) if bad_callers else \
+                'is a public method that performs the store without any model-identity test of its own'
+            res.fail(Finding(RULE, h.fq, 'unguarded store (moved from %s)' % anchor.name,
+                             'the %s that %s used to perform behind its model check now happens in %s, which %s: an '
+                             'object of another model can be stored' % (kind, anchor.fq, h.fq, why),
+                             repo.where(h), P17))
+    return True
+
+
 def run(repo):
     res = RuleResult(RULE, 'model-identity and misuse guards', TEXT)
     res.floor = 45
@@ -291,6 +350,11 @@ def run(repo):
         seen = {}
         for n, g in fl.sinks:
             seen[id(n)] = (n, seen.get(id(n), (n, True))[1] and g)
+        if not seen and kind != 'append':
+            # the store may have moved into another method of the class (adapt -> set_depend): follow it
+            moved = _moved_store(repo, res, fi, kind)
+            if moved:
+                continue
         if not seen:
             raise AnalysisError('%s: no store statement of kind %s found (anchor vanished)' % (fq, kind))
         for n, g in seen.values():
